@@ -149,6 +149,7 @@ type sim struct {
 	foreign        int64
 	countOnly      bool
 	countSites     bool
+	cover          []uint8   // countOnly: yield sites executed
 	trace          *[]uint32 // countOnly: the sequence of yield sites
 	wantText       bool
 	infeasible     int
@@ -178,6 +179,9 @@ func (s *sim) counted(site uint32) bool {
 func (s *sim) Yield(site uint32) {
 	if s.countOnly {
 		s.step++
+		if s.cover != nil {
+			s.cover[site] = 1
+		}
 		if s.countSites && siteEpoch[site] != soloEpoch {
 			siteEpoch[site] = soloEpoch
 			siteOpCount[site]++
